@@ -203,6 +203,11 @@ fn main() {
             failed = true;
         }
     }
+    // the code itself (not facts about it): unavailable is not a shape failure, the hand-written model still stands
+    if let Err(w) = gen_backoff_fn(&repo, &mut g) {
+        println!("FNTIE-UNAVAILABLE BackoffFn {}", w.replace('\n', " "));
+        let _ = std::fs::remove_file(g.dir.join("BackoffFn.lean"));
+    }
     println!("generated: {}", g.written.join(" "));
     if failed { std::process::exit(3); }
 }
@@ -1537,5 +1542,423 @@ fn gen_client(repo: &Path, g: &mut Gen) -> R<()> {
     let bits = std::cmp::min(bits, 32);
     let _ = writeln!(s, "/-- {id_rel}: width of the request id counter (ids repeat after 2^bits calls on one requestor and its clones) -/\ndef requestIdBits : Nat := {bits}");
     g.emit("Client", &[sub_rel, rq_rel, id_rel], &s);
+    Ok(())
+}
+
+// ------------------------------------------------------------------------ pure functions → Lean definitions
+//
+// A second kind of output: not a *fact about* the code but the code itself. A small subset of Rust (integer and
+// `Duration` arithmetic, `let`, `if`, `match` over `Option` / `Result` / field-less or tuple enums, early `return`,
+// assignments to locals and to one `self` field, struct literals, calls of free functions of the same file) is
+// printed as a Lean definition over the prelude `SeliumModel/Rs.lean` (machine operations with their widths).
+// `Lemmas/BackoffGen.lean` then proves that the *generated* definitions equal the hand-written model for every
+// argument. When a function leaves the subset the translator says `FNTIE-UNAVAILABLE` (never SHAPE-CHANGED):
+// the hand-written model and the correspondence runs still decide the property; `check` then only looks harder.
+
+type FR<T> = Result<T, String>;
+type FEnv = BTreeMap<String, String>;
+
+fn ty_str(t: &Type) -> String { quote::quote!(#t).to_string().replace(' ', "") }
+fn int_bits(t: &str) -> Option<u32> {
+    Some(match t { "u8" => 8, "u16" => 16, "u32" => 32, "u64" | "usize" => 64, "u128" => 128, _ => return None })
+}
+fn opt_inner(t: &str) -> String {
+    if let Some(r) = t.strip_prefix("Option<") { return r.trim_end_matches('>').to_string(); }
+    "?".into()
+}
+
+struct FnTr {
+    consts: BTreeMap<String, Expr>,
+    structs: BTreeMap<String, Vec<(String, String)>>,
+    enums: BTreeMap<String, Vec<(String, Vec<String>)>>,
+    fns: BTreeMap<String, (Vec<(String, String)>, String)>,
+    self_ty: Option<String>,
+    self_reads: std::cell::RefCell<BTreeMap<String, String>>,
+}
+
+impl FnTr {
+    fn lean_ty(&self, t: &str) -> FR<String> {
+        if int_bits(t).is_some() || t == "Duration" { return Ok("Nat".into()); }
+        if t.starts_with("Option<") { return Ok(format!("Option {}", self.lean_ty(&opt_inner(t))?)); }
+        if self.enums.contains_key(t) || self.structs.contains_key(t) { return Ok(t.to_string()); }
+        Err(format!("type {t} is outside the translated subset"))
+    }
+    fn self_field(&self, e: &Expr) -> FR<(String, String)> {
+        // self.a.b  ->  ("self_a_b", type of b)
+        let mut chain = vec![];
+        let mut cur = e;
+        loop {
+            match cur {
+                Expr::Field(f) => {
+                    match &f.member { syn::Member::Named(i) => chain.push(i.to_string()), _ => return Err("tuple field".into()) }
+                    cur = &f.base;
+                }
+                Expr::Path(p) if p.path.is_ident("self") => break,
+                _ => return Err("field access on something other than self".into()),
+            }
+        }
+        chain.reverse();
+        let mut ty = self.self_ty.clone().ok_or("self outside an impl")?;
+        for f in &chain {
+            let fs = self.structs.get(&ty).ok_or_else(|| format!("struct {ty} not found"))?;
+            ty = fs.iter().find(|(n, _)| n == f).ok_or_else(|| format!("field {f} of {ty} not found"))?.1.clone();
+        }
+        let name = format!("self_{}", chain.join("_"));
+        self.self_reads.borrow_mut().insert(name.clone(), ty.clone());
+        Ok((name, ty))
+    }
+    fn expr(&self, e: &Expr, env: &FEnv) -> FR<(String, String)> {
+        match e {
+            Expr::Lit(l) => match &l.lit {
+                syn::Lit::Int(i) => Ok((i.base10_digits().to_string(), if i.suffix().is_empty() { "?".into() } else { i.suffix().to_string() })),
+                _ => Err("literal that is not an integer".into()),
+            },
+            Expr::Paren(p) => self.expr(&p.expr, env),
+            Expr::Group(p) => self.expr(&p.expr, env),
+            Expr::Path(p) => {
+                let segs: Vec<String> = p.path.segments.iter().map(|s| s.ident.to_string()).collect();
+                if segs.len() == 1 {
+                    let n = &segs[0];
+                    if let Some(t) = env.get(n) { return Ok((n.clone(), t.clone())); }
+                    if let Some(c) = self.consts.get(n) { return Ok((eval_int(c, &self.consts)?.to_string(), "?".into())); }
+                    if n == "None" { return Ok(("none".into(), "Option<?>".into())); }
+                    return Err(format!("unknown name {n}"));
+                }
+                if segs == ["Duration", "MAX"] { return Ok(("Rs.DMAX".into(), "Duration".into())); }
+                if segs.len() == 2 && self.enums.contains_key(&segs[0]) { return Ok((format!("{}.{}", segs[0], segs[1]), segs[0].clone())); }
+                if segs.len() == 2 && segs[1] == "MAX" { if let Some(b) = int_bits(&segs[0]) { return Ok((format!("(2^{b} - 1)"), segs[0].clone())); } }
+                Err(format!("path {}", segs.join("::")))
+            }
+            Expr::Field(_) => self.self_field(e),
+            Expr::Cast(c) => {
+                let (s, t) = self.expr(&c.expr, env)?;
+                let target = ty_str(&c.ty);
+                match (int_bits(&t), int_bits(&target)) {
+                    (Some(a), Some(b)) if a <= b => Ok((s, target)),
+                    (_, Some(b)) => Ok((format!("(Rs.cast {b} {s})"), target)),
+                    _ => Err(format!("cast to {target}")),
+                }
+            }
+            Expr::Binary(b) => {
+                let (l, tl) = self.expr(&b.left, env)?;
+                let (r, tr) = self.expr(&b.right, env)?;
+                let t = if tl != "?" { tl } else { tr };
+                use syn::BinOp::*;
+                let (op, t) = match b.op {
+                    Add(_) => ("+", t), Sub(_) => ("-", t), Mul(_) => ("*", t), Div(_) => ("/", t), Rem(_) => ("%", t),
+                    Gt(_) => (">", "bool".into()), Lt(_) => ("<", "bool".into()), Ge(_) => ("≥", "bool".into()), Le(_) => ("≤", "bool".into()),
+                    Eq(_) => ("=", "bool".into()), Ne(_) => ("≠", "bool".into()), And(_) => ("∧", "bool".into()), Or(_) => ("∨", "bool".into()),
+                    _ => return Err("operator outside the subset".into()),
+                };
+                Ok((format!("({l} {op} {r})"), t))
+            }
+            Expr::Unary(u) => {
+                let (s, t) = self.expr(&u.expr, env)?;
+                match u.op { syn::UnOp::Not(_) if t == "bool" => Ok((format!("(¬ {s})"), t)), _ => Err("unary operator".into()) }
+            }
+            Expr::MethodCall(m) => {
+                let (r, tr) = self.expr(&m.receiver, env)?;
+                let args: FR<Vec<(String, String)>> = m.args.iter().map(|a| self.expr(a, env)).collect();
+                let args = args?;
+                let name = m.method.to_string();
+                match (name.as_str(), args.as_slice()) {
+                    ("as_nanos", []) if tr == "Duration" => Ok((r, "u128".into())),
+                    ("checked_mul", [(a, _)]) => { let b = int_bits(&tr).ok_or("checked_mul on a non-integer")?; Ok((format!("(Rs.checkedMul {b} {r} {a})"), format!("Option<{tr}>"))) }
+                    ("checked_pow", [(a, _)]) => { let b = int_bits(&tr).ok_or("checked_pow on a non-integer")?; Ok((format!("(Rs.checkedPow {b} {r} {a})"), format!("Option<{tr}>"))) }
+                    ("checked_add", [(a, _)]) => { let b = int_bits(&tr).ok_or("checked_add on a non-integer")?; Ok((format!("(Rs.checkedAdd {b} {r} {a})"), format!("Option<{tr}>"))) }
+                    ("min", [(a, _)]) => Ok((format!("(Nat.min {r} {a})"), tr)),
+                    ("max", [(a, _)]) => Ok((format!("(Nat.max {r} {a})"), tr)),
+                    ("is_zero", []) => Ok((format!("({r} = 0)"), "bool".into())),
+                    ("is_none", []) => Ok((format!("({r} = none)"), "bool".into())),
+                    _ => Err(format!("method {name}")),
+                }
+            }
+            Expr::Call(c) => {
+                let segs: Vec<String> = match &*c.func { Expr::Path(p) => p.path.segments.iter().map(|s| s.ident.to_string()).collect(), _ => return Err("call of a non-path".into()) };
+                let args: FR<Vec<(String, String)>> = c.args.iter().map(|a| self.expr(a, env)).collect();
+                let args = args?;
+                let seg: Vec<&str> = segs.iter().map(|s| s.as_str()).collect();
+                match (seg.as_slice(), args.as_slice()) {
+                    (["Some"], [(a, t)]) | (["Ok"], [(a, t)]) => Ok((format!("(some {a})"), format!("Option<{t}>"))),
+                    ([t, "try_from"], [(a, _)]) if int_bits(t).is_some() => Ok((format!("(Rs.tryFrom {} {a})", int_bits(t).unwrap()), format!("Option<{t}>"))),
+                    (["Duration", "new"], [(a, _), (b, _)]) => Ok((format!("(Rs.durationNew {a} {b})"), "Duration".into())),
+                    (["Duration", "from_nanos"], [(a, _)]) => Ok((a.clone(), "Duration".into())),
+                    ([f], _) if self.fns.contains_key(*f) => {
+                        let (ps, ret) = &self.fns[*f];
+                        if ps.len() != args.len() { return Err(format!("arity of {f}")); }
+                        Ok((format!("({f} {})", args.iter().map(|(a, _)| a.clone()).collect::<Vec<_>>().join(" ")), ret.clone()))
+                    }
+                    ([e, v], _) if self.enums.contains_key(*e) => Ok((format!("({e}.{v} {})", args.iter().map(|(a, _)| a.clone()).collect::<Vec<_>>().join(" ")), e.to_string())),
+                    _ => Err(format!("call of {}", segs.join("::"))),
+                }
+            }
+            Expr::If(i) => {
+                if matches!(&*i.cond, Expr::Let(_)) { return Err("`if let` as a value".into()); }
+                let (c, _) = self.expr(&i.cond, env)?;
+                let (a, ta) = self.stmts(&i.then_branch.stmts, env, &|v| v.to_string())?;
+                let els = i.else_branch.as_ref().ok_or("`if` without `else` as a value")?;
+                let (b, _) = self.expr(&els.1, env)?;
+                Ok((format!("(if {c} then {a} else {b})"), ta))
+            }
+            Expr::Match(m) => self.mtch(m, env, &|body, env2| self.expr(body, env2)),
+            Expr::Block(b) => self.stmts(&b.block.stmts, env, &|v| v.to_string()),
+            Expr::Struct(s) => {
+                let name = s.path.segments.last().unwrap().ident.to_string();
+                if !self.structs.contains_key(&name) || s.rest.is_some() { return Err(format!("struct literal {name}")); }
+                let mut fs = vec![];
+                for f in &s.fields {
+                    let fname = match &f.member { syn::Member::Named(i) => i.to_string(), _ => return Err("tuple struct literal".into()) };
+                    let (v, _) = self.expr(&f.expr, env)?;
+                    fs.push(format!("{fname} := {v}"));
+                }
+                Ok((format!("({{ {} }} : {name})", fs.join(", ")), name))
+            }
+            other => Err(format!("expression outside the subset: {}", quote::quote!(#other).to_string().chars().take(60).collect::<String>())),
+        }
+    }
+    /// pattern -> (Lean pattern, bindings)
+    fn pat(&self, p: &Pat, scrut_ty: &str) -> FR<(String, Vec<(String, String)>)> {
+        match p {
+            Pat::Wild(_) => Ok(("_".into(), vec![])),
+            Pat::Ident(i) if i.ident == "None" => Ok(("none".into(), vec![])),
+            Pat::Path(pp) => {
+                let segs: Vec<String> = pp.path.segments.iter().map(|s| s.ident.to_string()).collect();
+                if segs == ["None"] { return Ok(("none".into(), vec![])); }
+                if segs.len() == 2 && self.enums.contains_key(&segs[0]) { return Ok((format!(".{}", segs[1]), vec![])); }
+                Err(format!("pattern {}", segs.join("::")))
+            }
+            Pat::TupleStruct(ts) => {
+                let segs: Vec<String> = ts.path.segments.iter().map(|s| s.ident.to_string()).collect();
+                let mut names = vec![];
+                for e in &ts.elems {
+                    match e { Pat::Ident(i) => names.push(i.ident.to_string()), Pat::Wild(_) => names.push("_".into()), _ => return Err("nested pattern".into()) }
+                }
+                let seg: Vec<&str> = segs.iter().map(|s| s.as_str()).collect();
+                match seg.as_slice() {
+                    ["Some"] | ["Ok"] if names.len() == 1 => Ok((format!("some {}", names[0]), vec![(names[0].clone(), opt_inner(scrut_ty))])),
+                    ["Err"] if names.len() == 1 && names[0] == "_" => Ok(("none".into(), vec![])),
+                    [e, v] if self.enums.contains_key(*e) => {
+                        let tys = self.enums[*e].iter().find(|(n, _)| n == v).ok_or("variant")?.1.clone();
+                        if tys.len() != names.len() { return Err("variant arity".into()); }
+                        Ok((format!(".{v} {}", names.join(" ")), names.into_iter().zip(tys).collect()))
+                    }
+                    _ => Err(format!("pattern {}", segs.join("::"))),
+                }
+            }
+            _ => Err("pattern outside the subset".into()),
+        }
+    }
+    /// `match` whose arm bodies are translated by `body` (guards: `P if c => a, P => b` becomes `P => if c then a else b`)
+    fn mtch(&self, m: &syn::ExprMatch, env: &FEnv, body: &dyn Fn(&Expr, &FEnv) -> FR<(String, String)>) -> FR<(String, String)> {
+        let (s, ts) = self.expr(&m.expr, env)?;
+        let mut groups: Vec<(String, Vec<(Option<String>, String)>)> = vec![];
+        let mut ty = "?".to_string();
+        for arm in &m.arms {
+            let (lp, binds) = self.pat(&arm.pat, &ts)?;
+            let mut env2 = env.clone();
+            for (n, t) in binds { if n != "_" { env2.insert(n, t); } }
+            let guard = match &arm.guard { Some((_, g)) => Some(self.expr(g, &env2)?.0), None => None };
+            let (b, tb) = body(&arm.body, &env2)?;
+            if ty == "?" || ty == "Option<?>" { ty = tb; }
+            match groups.last_mut() {
+                Some((p, alts)) if *p == lp && alts.last().map(|a| a.0.is_some()).unwrap_or(false) => alts.push((guard, b)),
+                _ => groups.push((lp, vec![(guard, b)])),
+            }
+        }
+        let mut out = format!("(match {s} with");
+        for (p, alts) in groups {
+            if alts.last().unwrap().0.is_some() { return Err("a guarded arm without an unguarded one behind it".into()); }
+            let mut body = alts.last().unwrap().1.clone();
+            for (g, b) in alts.iter().rev().skip(1) { body = format!("(if {} then {b} else {body})", g.as_ref().unwrap()); }
+            let _ = write!(out, "\n  | {p} => {body}");
+        }
+        out.push(')');
+        Ok((out, ty))
+    }
+    fn returned(e: &Expr) -> Option<&Expr> {
+        match e {
+            Expr::Return(r) => r.expr.as_deref(),
+            Expr::Block(b) if b.block.stmts.len() == 1 => match &b.block.stmts[0] { syn::Stmt::Expr(Expr::Return(r), _) => r.expr.as_deref(), _ => None },
+            _ => None,
+        }
+    }
+    /// a statement list as one Lean term; `ret` wraps every value the function can return (tail value and `return`s)
+    fn stmts(&self, stmts: &[syn::Stmt], env: &FEnv, ret: &dyn Fn(&str) -> String) -> FR<(String, String)> {
+        use syn::Stmt;
+        let (first, rest) = match stmts.split_first() { Some(x) => x, None => return Err("empty block".into()) };
+        match first {
+            Stmt::Item(Item::Const(_)) => self.stmts(rest, env, ret),
+            Stmt::Local(l) => {
+                let (name, ann) = match &l.pat {
+                    Pat::Ident(i) => (i.ident.to_string(), None),
+                    Pat::Type(pt) => match &*pt.pat { Pat::Ident(i) => (i.ident.to_string(), Some(ty_str(&pt.ty))), _ => return Err("let pattern".into()) },
+                    _ => return Err("let pattern".into()),
+                };
+                let init = l.init.as_ref().ok_or("let without initialiser")?;
+                if init.diverge.is_some() { return Err("let-else".into()); }
+                if let Expr::Match(m) = &*init.expr {
+                    if m.arms.iter().any(|a| Self::returned(&a.body).is_some()) {
+                        // arms either give the bound value or leave the function
+                        let mut vty = ann.clone().unwrap_or("?".into());
+                        // type of the bound value: from the first arm that yields one
+                        for a in &m.arms {
+                            if Self::returned(&a.body).is_none() {
+                                let (_, ts) = self.expr(&m.expr, env)?;
+                                let (_, binds) = self.pat(&a.pat, &ts)?;
+                                let mut e2 = env.clone();
+                                for (n, t) in binds { e2.insert(n, t); }
+                                if vty == "?" { vty = self.expr(&a.body, &e2)?.1; }
+                            }
+                        }
+                        let mut env_rest = env.clone();
+                        env_rest.insert(name.clone(), vty);
+                        return self.mtch(m, env, &|b, e2| match Self::returned(b) {
+                            Some(r) => { let (v, t) = self.expr(r, e2)?; Ok((ret(&v), t)) }
+                            None => {
+                                let (v, _) = self.expr(b, e2)?;
+                                let mut e3 = e2.clone();
+                                e3.insert(name.clone(), env_rest[&name].clone());
+                                let (k, t) = self.stmts(rest, &e3, ret)?;
+                                Ok((format!("(let {name} := {v}; {k})"), t))
+                            }
+                        });
+                    }
+                }
+                let (v, t) = self.expr(&init.expr, env)?;
+                let mut e2 = env.clone();
+                e2.insert(name.clone(), ann.unwrap_or(t));
+                let (k, tk) = self.stmts(rest, &e2, ret)?;
+                Ok((format!("(let {name} := {v};\n  {k})"), tk))
+            }
+            Stmt::Expr(e, semi) => {
+                // leaving the function
+                if let Some(r) = Self::returned(e) { let (v, t) = self.expr(r, env)?; return Ok((ret(&v), t)); }
+                if rest.is_empty() && semi.is_none() {
+                    if let Expr::Match(m) = e {
+                        return self.mtch(m, env, &|b, e2| { let b = Self::returned(b).unwrap_or(b); let (v, t) = self.expr(b, e2)?; Ok((ret(&v), t)) });
+                    }
+                    let (v, t) = self.expr(e, env)?;
+                    return Ok((ret(&v), t));
+                }
+                match e {
+                    // if c { return x; }
+                    Expr::If(i) if i.else_branch.is_none() && !matches!(&*i.cond, Expr::Let(_)) && i.then_branch.stmts.len() == 1 => {
+                        let r = match &i.then_branch.stmts[0] { Stmt::Expr(x, _) => Self::returned(x), _ => None }.ok_or("`if` statement that does not return")?;
+                        let (c, _) = self.expr(&i.cond, env)?;
+                        let (v, _) = self.expr(r, env)?;
+                        let (k, t) = self.stmts(rest, env, ret)?;
+                        Ok((format!("(if {c} then {} else\n  {k})", ret(&v)), t))
+                    }
+                    // if let P = e { x = v; }
+                    Expr::If(i) if i.else_branch.is_none() && i.then_branch.stmts.len() == 1 => {
+                        let lt = match &*i.cond { Expr::Let(l) => l, _ => return Err("if statement".into()) };
+                        let (s, ts) = self.expr(&lt.expr, env)?;
+                        let (lp, binds) = self.pat(&lt.pat, &ts)?;
+                        let asg = match &i.then_branch.stmts[0] { Stmt::Expr(Expr::Assign(a), _) => a, _ => return Err("`if let` whose body is not one assignment".into()) };
+                        let var = match &*asg.left { Expr::Path(p) if p.path.get_ident().is_some() => p.path.get_ident().unwrap().to_string(), _ => return Err("assignment target".into()) };
+                        if !env.contains_key(&var) { return Err(format!("assignment to unknown {var}")); }
+                        let mut e2 = env.clone();
+                        for (n, t) in binds { e2.insert(n, t); }
+                        let (v, _) = self.expr(&asg.right, &e2)?;
+                        let (k, t) = self.stmts(rest, env, ret)?;
+                        Ok((format!("(let {var} := (match {s} with | {lp} => {v} | _ => {var});\n  {k})"), t))
+                    }
+                    // self.f += e   /   x += e
+                    Expr::Binary(b) if matches!(b.op, syn::BinOp::AddAssign(_)) => {
+                        let (l, tl) = self.expr(&b.left, env)?;
+                        let (r, _) = self.expr(&b.right, env)?;
+                        let mut e2 = env.clone();
+                        e2.insert(l.clone(), tl);
+                        let (k, t) = self.stmts(rest, &e2, ret)?;
+                        Ok((format!("(let {l} := ({l} + {r});\n  {k})"), t))
+                    }
+                    Expr::Assign(a) => {
+                        let (l, tl) = self.expr(&a.left, env)?;
+                        let (r, _) = self.expr(&a.right, env)?;
+                        let mut e2 = env.clone();
+                        e2.insert(l.clone(), tl);
+                        let (k, t) = self.stmts(rest, &e2, ret)?;
+                        Ok((format!("(let {l} := {r};\n  {k})"), t))
+                    }
+                    _ => Err("statement outside the subset".into()),
+                }
+            }
+            _ => Err("statement outside the subset".into()),
+        }
+    }
+}
+
+fn collect_local_consts(b: &syn::Block, m: &mut BTreeMap<String, Expr>) {
+    for s in &b.stmts { if let syn::Stmt::Item(Item::Const(c)) = s { m.insert(c.ident.to_string(), (*c.expr).clone()); } }
+}
+
+fn gen_backoff_fn(repo: &Path, g: &mut Gen) -> FR<()> {
+    let rel = "client/src/keep_alive/backoff_strategy.rs";
+    let src = Src::load(repo, rel).map_err(|s| s.0)?;
+    let mut tr = FnTr { consts: src.consts(), structs: BTreeMap::new(), enums: BTreeMap::new(), fns: BTreeMap::new(), self_ty: None, self_reads: Default::default() };
+    let mut free: BTreeMap<String, syn::ItemFn> = BTreeMap::new();
+    for it in &src.ast.items {
+        match it {
+            Item::Struct(s) => {
+                let mut fs = vec![];
+                if let Fields::Named(n) = &s.fields { for f in &n.named { fs.push((f.ident.as_ref().unwrap().to_string(), ty_str(&f.ty))); } }
+                tr.structs.insert(s.ident.to_string(), fs);
+            }
+            Item::Enum(e) => {
+                let mut vs = vec![];
+                for v in &e.variants {
+                    let tys = match &v.fields { Fields::Unit => vec![], Fields::Unnamed(u) => u.unnamed.iter().map(|f| ty_str(&f.ty)).collect(), _ => return Err("enum with named fields".into()) };
+                    vs.push((v.ident.to_string(), tys));
+                }
+                tr.enums.insert(e.ident.to_string(), vs);
+            }
+            Item::Fn(f) => { free.insert(f.sig.ident.to_string(), f.clone()); }
+            _ => {}
+        }
+    }
+    let mut out = String::new();
+    // the data types the two functions mention
+    let strat = tr.enums.get("Strategy").ok_or("enum Strategy not found")?.clone();
+    let _ = writeln!(out, "/-- `enum Strategy` -/\ninductive Strategy where");
+    for (v, tys) in &strat {
+        let args: FR<Vec<String>> = tys.iter().enumerate().map(|(i, t)| Ok(format!(" (a{i} : {})", tr.lean_ty(t)?))).collect();
+        let _ = writeln!(out, "  | {v}{}", args?.join(""));
+    }
+    let _ = writeln!(out, "  deriving Repr, DecidableEq\n");
+    let na = tr.structs.get("NextAttempt").ok_or("struct NextAttempt not found")?.clone();
+    let _ = writeln!(out, "/-- `struct NextAttempt` -/\nstructure NextAttempt where");
+    for (f, t) in &na { let _ = writeln!(out, "  {f} : {}", tr.lean_ty(t)?); }
+    let _ = writeln!(out, "  deriving Repr, DecidableEq\n");
+    // free function saturating_mul
+    let sm = free.get("saturating_mul").ok_or("fn saturating_mul not found")?;
+    collect_local_consts(&sm.block, &mut tr.consts);
+    let mut env = FEnv::new();
+    let mut params = vec![];
+    for a in &sm.sig.inputs {
+        if let syn::FnArg::Typed(pt) = a {
+            let n = match &*pt.pat { Pat::Ident(i) => i.ident.to_string(), _ => return Err("parameter pattern".into()) };
+            let t = ty_str(&pt.ty);
+            params.push((n.clone(), t.clone()));
+            env.insert(n, t);
+        }
+    }
+    let ret_ty = match &sm.sig.output { syn::ReturnType::Type(_, t) => ty_str(t), _ => return Err("saturating_mul returns nothing".into()) };
+    let (body, _) = tr.stmts(&sm.block.stmts, &env, &|v| v.to_string())?;
+    let ps: FR<Vec<String>> = params.iter().map(|(n, t)| Ok(format!("({n} : {})", tr.lean_ty(t)?))).collect();
+    let widths: Vec<String> = params.iter().map(|(n, t)| format!("{n} : {t}")).collect();
+    let _ = writeln!(out, "/-- `fn saturating_mul({})` -/\ndef saturating_mul {} : {} :=\n  {body}\n", widths.join(", "), ps?.join(" "), tr.lean_ty(&ret_ty)?);
+    tr.fns.insert("saturating_mul".into(), (params, ret_ty));
+    // <BackoffStrategyIter as Iterator>::next
+    let next = find_method(&src.ast, "BackoffStrategyIter", "next", Some("Iterator")).ok_or("`impl Iterator for BackoffStrategyIter` has no fn next")?;
+    tr.self_ty = Some("BackoffStrategyIter".into());
+    collect_local_consts(&next.block, &mut tr.consts);
+    // the one field `next` assigns: the attempt counter (its new value is the second component of the result)
+    let (body, _) = tr.stmts(&next.block.stmts, &FEnv::new(), &|v| format!("({v}, self_current_attempt)"))?;
+    let reads = tr.self_reads.borrow().clone();
+    if !reads.contains_key("self_current_attempt") { return Err("next() does not read self.current_attempt".into()); }
+    let ps: FR<Vec<String>> = reads.iter().map(|(n, t)| Ok(format!("({n} : {})", tr.lean_ty(t)?))).collect();
+    let widths: Vec<String> = reads.iter().map(|(n, t)| format!("{n} : {t}")).collect();
+    let _ = writeln!(out, "/-- `BackoffStrategyIter::next(&mut self)`: the item and the new value of `self.current_attempt`\n    ({}) -/\ndef next {} : Option NextAttempt × Nat :=\n  {body}", widths.join(", "), ps?.join(" "));
+    g.emit_with_imports("BackoffFn", &["SeliumModel.Rs"], &[rel], &format!("open Selium\n\n{out}"));
     Ok(())
 }
